@@ -39,6 +39,8 @@ def recipes_for(labels, idx):
          {"k": "comb", "a": 3.0, "b": 2.0, "de": 0.5}]
     if None not in labels and names:
         D.append({"k": "comb", "a": 1.0, "b": 1.0, "de": 2.0, "cat": {"k": "ord", "labels": ["x", "y"]}})
+        # an ordinal scale declared in an order that is neither alphabetical nor its reverse (z < x < y)
+        D.append({"k": "comb", "a": 1.0, "b": 2.0, "de": 1.0, "cat": {"k": "ord", "labels": ["z", "x", "y"]}})
     return [D[idx % len(D)]]
 
 
@@ -87,6 +89,12 @@ def transformations(spec, recipe, idx):
     if recipe["k"] == "comb" and (cat is None or cat["k"] == "abs"):
         ren = {"x": "q", "y": "b", "z": "a", None: None}
         out.append(("categories x->q y->b (arbitrary bijection)", map_spec(spec, fl=lambda l: ren.get(l, l)), recipe, 1.0))
+    elif recipe["k"] == "comb" and len(cat.get("labels", [])) >= 3:
+        # any bijection applied to the labels AND to the declared scale keeps every rank in the scale,
+        # while the alphabetical order of the new names is a different permutation
+        ren = {"z": "b", "x": "c", "y": "a", None: None}
+        out.append(("categories z->b x->c y->a (scale order preserved, alphabetical order changed)",
+                    map_spec(spec, fl=lambda l: ren.get(l, l)), rename_recipe(recipe, lambda l: ren.get(l, l)), 1.0))
     elif recipe["k"] == "comb":
         ren = {"x": "m", "y": "n", None: None}
         out.append(("categories x->m y->n (order preserving)", map_spec(spec, fl=lambda l: ren.get(l, l)),
@@ -122,6 +130,7 @@ def shards(tier, seed):
              dict(n=2, k=2, T=3, labels=[None, "x"]), dict(n=4, k=1, T=2, labels=XY)]
     # short and long segments mixed (a short far unit followed by a long unit that is within reach again)
     LONG = [[0, 1], [2, 3], [2, 6], [0, 6], [5, 6], [1, 2]]
+    U.append(dict(n=2, k=2, T=2, labels=["x", "y", "z"], every=3 if tier == "quick" else 1))
     U.append(dict(n=2, k=2, T=6, labels=["x"], segs=LONG))
     U.append(dict(n=3, k=2, T=6, labels=["x"], segs=LONG[:4], sym=True, every=2 if tier == "quick" else 1))
     tasks = []
